@@ -135,3 +135,16 @@ Theorem C11_permute_dims_law : forall (A : Type) (t : tensor A) perm d idx,
               forall i, (i < rank t)%nat -> nth (nth i perm 0%nat) src 0%nat = nth i idx 0%nat.
 Proof. exact @transpose_spec. Qed.
 Print Assumptions C11_permute_dims_law.
+
+(* stack (axis normalised against rank + 1, Unsqueeze of every operand, Concat): the new axis has one position per operand
+   and position j holds operand j — any number of same-rank operands, any rank, any position of the new axis *)
+From ND Require Import Ndx.StackFacts.
+Theorem C11_stack_elements : forall (A : Type) (ts : list (tensor A)) axis d r,
+  ndx_stack ts axis d = GetItem.Done r -> (forall t, In t ts -> rank t = rank (hd r ts)) ->
+  let ax := zaxis (rank (hd r ts) + 1) axis in
+  (ax <= rank (hd r ts))%nat /\ nth ax (shape r) 0%nat = length ts /\
+  forall idx, Tensor.in_bounds (shape r) idx ->
+    (nth ax idx 0%nat < length ts)%nat /\
+    forall dflt, get r idx d = get (nth (nth ax idx 0%nat) ts dflt) (remove_nth ax idx) d.
+Proof. exact @ndx_stack_spec. Qed.
+Print Assumptions C11_stack_elements.
